@@ -10,8 +10,8 @@
    well formed and kept as they are by storage). *)
 From Coq Require Import List ZArith NArith Bool.
 From TF Require Import Base Query Index DB Spec proofs.IndexDefs proofs.IndexP proofs.RepP proofs.DBReadP proofs.DBRemoveP
-     proofs.DBStepP proofs.DBRunP proofs.DBSpecP proofs.GetterP proofs.RefineP QueryObj SearchSem proofs.SearchGenP.
-From TF Require gen.SearchGen.
+     proofs.DBStepP proofs.DBRunP proofs.DBSpecP proofs.GetterP proofs.RefineP QueryObj SearchSem proofs.SearchGenP InsertSem proofs.InsertGenP.
+From TF Require gen.SearchGen gen.InsertGen.
 Import ListNotations.
 
 Theorem C06_reachable : forall E C norm, (forall p, wf_point p -> wf_point (norm p)) ->
@@ -59,6 +59,19 @@ Proof. exact Rep_empty. Qed.
 Theorem C06_read_leaves_valid : forall s, st_auto s = true -> ix_valid (st_idx (read_prelude s)) = true.
 Proof. exact read_prelude_valid. Qed.
 
+(* what an insert decides - the point as stored under the measurement argument, what happens to the index after each appended point (kept and
+   fed / dropped because the point is earlier than the newest indexed one / dropped because automatic indexing is off), the statement after the
+   loop - REGENERATED from TinyFlux._insert_helper on every run (gen/InsertGen.v) and assembled into the insert loop, is the model's db_insert for
+   every state, batch and measurement argument: C06_step and C06_reachable (the invariant through inserts) speak about these decisions *)
+Theorem C06_source_insert_is_the_model : forall norm s ps m, gen_insert norm s ps m = db_insert norm s ps m.
+Proof. exact gen_insert_eq. Qed.
+Theorem C06_source_insert_index_step : forall auto ix p,
+  InsertGen.gen_index_step auto ix p =
+  if auto && ix_valid ix then
+    (if negb (ix_is_empty ix) && match ix_latest ix with Some t => Z.ltb (p_time p) t | None => false end then ix_invalidate ix else ix_insert ix p)
+  else if ix_valid ix then ix_invalidate ix else ix.
+Proof. exact gen_index_step_eq. Qed.
+
 Print Assumptions C06_reachable.
 Print Assumptions C06_step.
 Print Assumptions C06_refines_list_spec.
@@ -70,3 +83,5 @@ Print Assumptions C06_insert.
 Print Assumptions C06_remove.
 Print Assumptions C06_reset.
 Print Assumptions C06_read_leaves_valid.
+Print Assumptions C06_source_insert_is_the_model.
+Print Assumptions C06_source_insert_index_step.
